@@ -155,8 +155,10 @@ class C16(Prop):
                 expect[cid] = (back, bed, nm, style)
         # large chromosomes: every per-chromosome worker of the converters produces far more than one 8 KiB buffer of text
         # (or of sections), so its output is handed over in the MIDDLE of its writes — for every thread count
-        for big, bed in enumerate((False, True) if tier == "thorough" else (False, True)):
-            nrec = {"chrA": 25000, "chrB": 70000, "chrC": 400, "chrD": 30000}
+        for big, bed in enumerate((False, True, False, True)):
+            # big 0/1: few large chromosomes; big 2/3: 300 small chromosomes with default options (more data sections than
+            # the index's fan-out: its upper level spans chromosome boundaries)
+            nrec = {"chrA": 25000, "chrB": 70000, "chrC": 400, "chrD": 30000} if big < 2 else {f"contig_{i:04d}": 2 + i % 3 for i in range(300)}
             src = os.path.join(d, f"big{big}." + ("bed" if bed else "bedGraph"))
             sz = os.path.join(d, f"big{big}.sizes")
             recs = []
@@ -176,18 +178,22 @@ class C16(Prop):
                 outb = os.path.join(d, f"big{big}_{wi}." + ("bb" if bed else "bw"))
                 p = subprocess.run([repo_bin(to_tool), src, sz, outb] + wflags, capture_output=True, text=True, timeout=300)
                 runs += 1
-                for rflags in (["-t", "1"], ["-t", "2"], ["-t", "6"], ["-t", "4", "--inmemory"]):
+                for rflags in (["-t", "1"], ["-t", "2"], ["-t", "6"], ["-t", "4", "--inmemory"], ["--chrom", list(nrec)[len(nrec) // 2]]):
                     if wi == 1 and rflags != ["-t", "6"]:
                         continue
+                    if rflags[0] == "--chrom":
+                        want_recs = [x for x in recs if x[0] == rflags[1]]
+                    else:
+                        want_recs = recs
                     back = outb + "." + "_".join(rflags).replace("-", "") + ".txt"
                     p2 = subprocess.run([repo_bin(from_tool), outb, back] + rflags, capture_output=True, text=True, timeout=300)
                     runs += 1
                     got = self.parse_text(back, bed)
-                    if got != recs and not any("roundtrip_big" in v[0] for v in rep.violations):
-                        diff = next(((i, g, w) for i, (g, w) in enumerate(zip((got or []) + [None] * len(recs), recs + [None] * len(got or []))) if g != w), None)
+                    if got != want_recs and not any("roundtrip_big" in v[0] for v in rep.violations):
+                        diff = next(((i, g, w) for i, (g, w) in enumerate(zip((got or []) + [None] * len(want_recs), want_recs + [None] * len(got or []))) if g != w), None)
                         rep.violation(f"roundtrip_big{big}_{wi}.txt",
-                                      f"# {to_tool} {' '.join(wflags)} then {from_tool} {' '.join(rflags)} on chromosomes of {nrec} records does not return the "
-                                      f"original records: {len(got or [])} of {len(recs)} records; first difference (index, got, expected): {diff}; "
+                                      f"# {to_tool} {' '.join(wflags)} then {from_tool} {' '.join(rflags)} on chromosomes of {dict(list(nrec.items())[:4])}… records does not return the "
+                                      f"original records: {len(got or [])} of {len(want_recs)} records; first difference (index, got, expected): {diff}; "
                                       f"exit {p.returncode}/{p2.returncode} {p.stderr.strip()[-150:]} {p2.stderr.strip()[-150:]}\n")
                     rep.tag("large_chromosomes_" + "_".join(wflags + rflags).replace("-", ""))
         ri = run_impl(readcases, os.path.join(d, "rq"))
